@@ -1081,20 +1081,25 @@ namespace chaiscript {
 
         ~Char_Parser() {
           try {
-            if (is_octal) {
-              process_octal();
-            }
-
-            if (is_hex) {
-              process_hex();
-            }
-
-            if (unicode_size > 0) {
-              process_unicode();
-            }
+            finish();
           } catch (const std::invalid_argument &) {
           } catch (const exception::eval_error &) {
             // Something happened with parsing, we'll catch it later?
+          }
+        }
+
+        /// Processes the escape sequence that is still pending when the literal ends
+        void finish() {
+          if (is_octal) {
+            process_octal();
+          }
+
+          if (is_hex) {
+            process_hex();
+          }
+
+          if (unicode_size > 0) {
+            process_unicode();
           }
         }
 
@@ -1355,6 +1360,8 @@ namespace chaiscript {
               }
             }
 
+            cparser.finish();
+
             if (cparser.saw_interpolation_marker) {
               match.push_back('$');
             }
@@ -1418,6 +1425,7 @@ namespace chaiscript {
             for (auto s = start + 1, end = m_position - 1; s != end; ++s) {
               cparser.parse(*s, start.line, start.col, *m_filename);
             }
+            cparser.finish();
           }
 
           if (match.size() != 1) {
